@@ -160,7 +160,7 @@ def run(chk):
                     g2["version"] = rng.choice(VERSIONS_00)
                     g2["name"] = "%s %s" % (g2["family"], g2["version"])
                     for key, pool in (("packagedir", ["Packages", ".", "Server", "RedHat/RPMS/", "", None]),
-                                      ("repository", [".", "Server/repodata", "repo/", "Server", None])):
+                                      ("repository", [".", "Server/repodata", "repo/", "Server", None, "Server/repodata/", "repodata/", "Server//repodata", "repodata"])):
                         val = rng.choice(pool + [g2.get(key)])
                         if val is None:
                             g2.pop(key, None)
